@@ -48,6 +48,12 @@ def record_call(samp, args, memo, budget_s):
     orig = samp._poisson
 
     def wrapper(nx, ny, max_attempts, radius_x, radius_y, calib_, seed=None):
+        # "hang" is decided by counting, not by the wall clock: a float bisection collapses within ~1080 halvings,
+        # so more than 1300 probes is a loop that does not end; the alarm is re-armed per probe and only catches a
+        # probe (the Bridson loop itself) that does not return.
+        if len(probes) >= 1300:
+            raise Watchdog()
+        signal.alarm(int(budget_s))
         m = orig(nx, ny, max_attempts, radius_x, radius_y, calib_, seed)
         probes.append({"proxy": float(max(radius_x.max(), radius_y.max())), "mask": m})
         return m
@@ -167,7 +173,7 @@ def run(ctx):
             # perturb numpy's global RNG differently before every call
             np.random.seed(int(rs.randint(0, 2 ** 31 - 1)))
             np.random.rand(int(rs.randint(1, 50)))
-            t = record_call(samp, dict(args), memo, 240 if ctx.thorough else 90)
+            t = record_call(samp, dict(args), memo, 120)
             k += 1
             t["id"] = "call%d" % k
             traces.append(t)
